@@ -230,6 +230,8 @@ def scripted_runner_class():
             self.log = []           # (event index, text written to child stdin)
             self.delivered = [[], []]
             self.started = []
+            self.stdin_closed = threading.Event()
+            self.wait_for_close = False
 
         def start(self, command, shell, env, timeout=None):
             self.started.append(command)
@@ -243,6 +245,9 @@ def scripted_runner_class():
             return t is not None and t.ident is not None and not t.is_alive()
 
         def _read(self, sid):
+            if self.wait_for_close:
+                # input stream at EOF: let the stdin worker close the child's stdin first
+                self.stdin_closed.wait(5)
             with self.cv:
                 if self.inflight is not None and self.schedule[self.inflight][0] == sid:
                     self.inflight = None
@@ -274,10 +279,12 @@ def scripted_runner_class():
             return self._read(1)
 
         def _write_proc_stdin(self, data):
+            if self.stdin_closed.is_set():
+                raise ValueError("write to closed file")     # what a closed pipe object does
             self.log.append((self.inflight, data.decode()))
 
         def close_proc_stdin(self):
-            pass
+            self.stdin_closed.set()
 
         @property
         def process_is_finished(self):
@@ -302,7 +309,8 @@ def drive_runner(ctx, kw_list, case, sched):
     sudo = case.get("sudo")
     opts = case.get("opts") or {}
     r = Scripted(ctx, sched)
-    kwargs = {"in_stream": False, "hide": opts.get("hide", True)}
+    r.wait_for_close = bool(case.get("eof"))
+    kwargs = {"in_stream": io.StringIO("") if case.get("eof") else False, "hide": opts.get("hide", True)}
     if "warn" in opts:
         kwargs["warn"] = opts["warn"]
     if kw_list is not None:
@@ -337,7 +345,7 @@ def drive_runner(ctx, kw_list, case, sched):
                 if isinstance(w.value, ResponseNotAccepted):
                     raised[sid] = True
                     died_at[sid] = r.delivered[sid][-1] if r.delivered[sid] else None
-                else:
+                elif exc is None:
                     exc = "thread:" + type(w.value).__name__
     return {"writes": writes, "raised": raised, "exc": exc, "died_at": died_at}
 
@@ -411,7 +419,8 @@ def sig_straddle(case, obs=None):
     return False
 
 
-EXN = {"ResponseNotAccepted": "XResponseNotAccepted", "Failure": "XFailure", "AuthFailure": "XAuthFailure"}
+EXN = {"ResponseNotAccepted": "XResponseNotAccepted", "Failure": "XFailure", "AuthFailure": "XAuthFailure",
+       "ThreadException": "XThreadException"}
 VIA = {"direct": "Direct", "run": "ViaRun", "sudo": "ViaSudo"}
 RESPONSES = ["y", "n\n", "pw\n"]
 
@@ -514,8 +523,11 @@ class C12(Prop):
         k = rng.random()
         cfg_ws = self._watchers(rng, 1) if k < 0.35 else []
         kw_ws = self._watchers(rng, 1) if 0.2 < k < 0.55 else None
+        if cfg_ws and rng.random() < 0.3:
+            kw_ws = []                      # an empty list given: the configured ones must NOT apply
         calls = [sched()] + ([sched()] if rng.random() < 0.4 else [])
         return {"how": "sudo", "cfg_watchers": cfg_ws, "watchers": kw_ws, "sudo": su,
+                "eof": rng.random() < 0.1,
                 "kw_none": kw_ws is None and rng.random() < 0.4,
                 "opts": self._opts(rng), "calls": calls}
 
@@ -548,9 +560,10 @@ class C12(Prop):
         m = rng.random()
         cfg_ws = self._watchers(rng, 2) if m < 0.35 else []
         kw_ws = self._watchers(rng) if m > 0.2 else None
-        if rng.random() < 0.04:
+        if rng.random() < 0.04 or (cfg_ws and rng.random() < 0.15):
             kw_ws = []
         return {"how": how, "cfg_watchers": cfg_ws, "watchers": kw_ws, "sudo": None,
+                "eof": rng.random() < 0.1,
                 "kw_none": kw_ws is None and rng.random() < 0.3,
                 "opts": self._opts(rng), "calls": calls}
 
@@ -643,7 +656,8 @@ class C12(Prop):
                 ct.pair(ct.b(o["raised"][0]), ct.b(o["raised"][1])),
                 ct.opt(EXN.get(o["exc"], "XOther") if o["exc"] is not None else None)))
         occ = ct.lst([ct.pair(ct.pair(pat_term(t), ct.s(x)), ct.n(k)) for t, x, k in obs["occ"]])
-        return "(mk %s %s %s %s %s %s)" % (cfg, kw, sudo, VIA[case["how"]], ct.lst(calls), occ)
+        return "(mk %s %s %s %s %s %s %s)" % (cfg, kw, sudo, VIA[case["how"]], ct.b(bool(case.get("eof"))),
+                                              ct.lst(calls), occ)
 
     def nontrivial(self, case, obs):
         case = norm(case)
@@ -666,6 +680,8 @@ class C12(Prop):
             tag += "/cfgw"
         if (case.get("opts") or {}).get("warn"):
             tag += "/warn"
+        if case.get("eof"):
+            tag += "/eof"
         if any(o["exc"] for o in obs["calls"]):
             tag += "/raised"
         if sig_straddle(case):
@@ -675,7 +691,15 @@ class C12(Prop):
         return tag
 
     def finding_of(self, case, obs):
-        # F-C12a / F-C12b / F-C12c are fixed in /repo: nothing is attributed any more
+        # F-C12a / F-C12b / F-C12c are fixed in /repo.  F-C12d: the caller's input stream is at
+        # EOF and some watcher has something to answer.
+        case = norm(case)
+        if case.get("eof") and case["how"] != "direct":
+            for sched in case["calls"]:
+                for sid in (0, 1):
+                    text = "".join(c for _, c in stream_reads(sched, sid))
+                    if any(re.search(regex(w["pattern"]), text, re.S) for w in all_watchers(case)):
+                        return "F-C12d"
         return None
 
     def shrink_candidates(self, case):
@@ -696,6 +720,8 @@ class C12(Prop):
                                                         "response": w["response"]}] + ws[i + 1:]})
         if case.get("opts"):
             yield dict(case, opts={})
+        if case.get("eof"):
+            yield dict(case, eof=False)
         if case["how"] == "run" and not case["cfg_watchers"] and case["watchers"] is not None:
             yield dict(case, how="direct", opts={})
         for ci, sched in enumerate(calls):
@@ -738,7 +764,7 @@ class C12(Prop):
 
     # ---- real pipes ----------------------------------------------------------
     def extra_checks(self, tier, seed):
-        return [real_pipe_checks()]
+        return [real_pipe_checks(), group_pattern_checks(tier)]
 
 
 def real_pipe_checks():
@@ -764,6 +790,9 @@ def real_pipe_checks():
         ("prompt written in two pieces",
          "printf 'Pass'; sleep 0.2; printf 'word:'; read a; echo \"got=$a\"" + tail,
          lambda: [Responder("Password:", "s3\n")], "got=s3", None),
+        ("optional capturing group absent, then present",
+         "printf 'password:'; read a; printf 'password for bob:'; read b; echo \"got=$a,$b\"" + tail,
+         lambda: [Responder(r"password( for \w+)?:", "s\n")], "got=s,s", None),
         ("failing responder, sentinel after the answer",
          "printf 'P:'; read a; echo 'Sorry'; read -t 0.5 b; echo end",
          lambda: [FailingResponder("P:", "pw\n", "Sorry")], None, "Failure"),
@@ -795,6 +824,37 @@ def real_pipe_checks():
     return {"name": "real-pipe", "evaluations": n, "failures": failures,
             "note": "TEST on real Local runs (pipes and pty): every answer reaches the child's stdin once, "
                     "in order, nothing further arrives; a failing responder fails the run for every warn"}
+
+
+GROUP_PATTERNS = [r"pw( for \w+)?:", r"(a)(b)?:", r"P(:)", r"(x|yy):", r"a()b"]
+GROUP_TEXTS = ["pw:", "pw for al:pw:", "a:ab:", "xa:b:ab:", "P:P:", "x:yy:y:", "abab", "pw for :pw::"]
+
+
+def group_pattern_checks(tier):
+    """TEST: patterns with capturing / optional groups (outside the proved family: for them
+    re.findall returns group texts, possibly empty).  Every occurrence -- counted with
+    re.finditer on the whole text -- is answered exactly once, however the text is cut;
+    all the patterns end in a mandatory character, so no occurrence is a prefix of another."""
+    from invoke.watchers import Responder
+    failures, n = [], 0
+    for pat in GROUP_PATTERNS:
+        for text in GROUP_TEXTS:
+            want = len(list(re.finditer(pat, text, re.S)))
+            comps = list(compositions(text)) if len(text) <= (10 if tier == "thorough" else 7) else \
+                [[text], list(text), [text[:len(text) // 2], text[len(text) // 2:]]]
+            for comp in comps:
+                n += 1
+                w = Responder(pat, "y")
+                buf, got = "", 0
+                for c in comp:
+                    buf += c
+                    got += len(list(w.submit(buf)))
+                if got != want:
+                    failures.append({"case": {"pattern": pat, "reads": comp}, "what": {"answers": got, "occurrences": want}})
+                    break
+    return {"name": "group-patterns", "evaluations": n, "failures": failures[:5],
+            "note": "TEST: Responder with capturing/optional-group patterns answers each re.finditer occurrence "
+                    "of the whole text exactly once under every cut tried"}
 
 
 PROP = C12()
